@@ -232,6 +232,20 @@ void enumerate_graphs(int maxN, int maxCopies, bool undirected,
                     bg_add(g, pairs[k].first, pairs[k].second, lab, c > 0, h);
                 }
             visit(g, h.str());
+            // states reached through removals as well (a change may leave something behind that only a later
+            // call trips over): from every duplicate-free graph, remove one vertex's edges / clear everything
+            bool simple = true;
+            for (int c : cnt) simple = simple && c <= 1;
+            if (simple && n > 0) {
+                for (int v = 0; v < n; ++v) {
+                    G g2 = g;
+                    g2.removeVertexFromEdgeList(v);
+                    visit(g2, h.str() + " g.removeVertexFromEdgeList(" + std::to_string(v) + ");");
+                }
+                G g3 = g;
+                g3.clearEdges();
+                visit(g3, h.str() + " g.clearEdges();");
+            }
             size_t k = 0;
             while (k < cnt.size() && cnt[k] == maxCopies) cnt[k++] = 0;
             if (k == cnt.size()) break;
